@@ -79,8 +79,6 @@ def runLen (x T : Nat) : Nat → Nat → List Term
       ⟨2 ^ n - 1, ip + 1 - n⟩ :: runLen x T fuel (ip + 1 - n)
     else runLen x T fuel ip
 
-#eval (runLen 0b1110111101 3 20 10).reverse
-#eval value (runLen 0b1110111101 3 20 10)
 
 /-- the bits counted by `runDown` are all set, there is at least one if the top bit is set,
     at most `T` of them when `T > 0`, and never more than available -/
@@ -195,6 +193,4 @@ theorem runLen_spec (x T : Nat) : ∀ (fuel ip : Nat), ip ≤ fuel →
         have : 2 ^ ip ≤ 2 ^ (ip + 1) := Nat.pow_le_pow_right (by omega) (by omega)
         omega
 
-#print axioms runLen_spec
-#print axioms fixedW_spec
 end P.Bits
